@@ -5,8 +5,8 @@ From ApolloVerif Require Import Base.Chars Mem.FileId Mem.FileIdProgram.
 From Coq Require Import Permutation ZifyBool ZifyN.
 
 (* ------------------------------------------------------------------ bits *)
-Lemma TAGN_pow : TAGN = 2 ^ 63. Proof. reflexivity. Qed.
-Lemma W64_pow : W64 = 2 ^ 64. Proof. reflexivity. Qed.
+Lemma TAGN_pow : fi_TAGN = 2 ^ 63. Proof. reflexivity. Qed.
+Lemma W64_pow : fi_W64 = 2 ^ 64. Proof. reflexivity. Qed.
 
 Lemma land_pow2 c n : N.land c (2 ^ n) = if N.testbit c n then 2 ^ n else 0.
 Proof.
@@ -17,39 +17,39 @@ Proof.
     rewrite N.pow2_bits_false; [reflexivity|exact Hne].
 Qed.
 
-Lemma testbit63_small c : c < TAGN -> N.testbit c 63 = false.
+Lemma testbit63_small c : c < fi_TAGN -> N.testbit c 63 = false.
 Proof.
   intro H. pose proof (N.testbit_spec' c 63) as S.
   rewrite N.div_small in S by (rewrite <- TAGN_pow; exact H).
   destruct (N.testbit c 63); [discriminate S|reflexivity].
 Qed.
 
-Lemma testbit63_big c : TAGN <= c -> c < W64 -> N.testbit c 63 = true.
+Lemma testbit63_big c : fi_TAGN <= c -> c < fi_W64 -> N.testbit c 63 = true.
 Proof.
   intros Hlo Hhi. pose proof (N.testbit_spec' c 63) as S. rewrite <- TAGN_pow in S.
-  assert (Hq : c / TAGN = 1).
-  { assert (TAGN <> 0) by (unfold TAGN; lia).
-    pose proof (N.div_le_lower_bound c TAGN 1 H) as L.
-    pose proof (N.div_lt_upper_bound c TAGN 2 H) as U.
-    unfold TAGN, W64 in *. lia. }
+  assert (Hq : c / fi_TAGN = 1).
+  { assert (fi_TAGN <> 0) by (unfold fi_TAGN; lia).
+    pose proof (N.div_le_lower_bound c fi_TAGN 1 H) as L.
+    pose proof (N.div_lt_upper_bound c fi_TAGN 2 H) as U.
+    unfold fi_TAGN, fi_W64 in *. lia. }
   rewrite Hq in S. destruct (N.testbit c 63); [reflexivity|discriminate S].
 Qed.
 
-Lemma untagged_small c : c < TAGN -> untagged c = true.
+Lemma untagged_small c : c < fi_TAGN -> fi_untagged c = true.
 Proof.
-  intro H. unfold untagged. rewrite TAGN_pow, land_pow2, <- TAGN_pow, (testbit63_small c H). reflexivity.
+  intro H. unfold fi_untagged. rewrite TAGN_pow, land_pow2, <- TAGN_pow, (testbit63_small c H). reflexivity.
 Qed.
 
-Lemma untagged_big c : TAGN <= c -> c < W64 -> untagged c = false.
+Lemma untagged_big c : fi_TAGN <= c -> c < fi_W64 -> fi_untagged c = false.
 Proof.
-  intros H1 H2. unfold untagged. rewrite TAGN_pow, land_pow2, (testbit63_big c H1 H2). reflexivity.
+  intros H1 H2. unfold fi_untagged. rewrite TAGN_pow, land_pow2, (testbit63_big c H1 H2). reflexivity.
 Qed.
 
 (* ------------------------------------------------------------------ list update *)
-Lemma upd_length {A} i (x : A) l : length (upd i x l) = length l.
+Lemma upd_length {A} i (x : A) l : length (fi_upd i x l) = length l.
 Proof. revert i; induction l as [|y r IH]; intros [|i]; cbn; auto. Qed.
 
-Lemma upd_Forall {A} (Q : A -> Prop) i x l : Forall Q l -> Q x -> Forall Q (upd i x l).
+Lemma upd_Forall {A} (Q : A -> Prop) i x l : Forall Q l -> Q x -> Forall Q (fi_upd i x l).
 Proof.
   intros H Hx. revert i; induction H as [|y r Hy Hr IH]; intros [|i]; cbn; constructor; auto.
 Qed.
@@ -63,7 +63,7 @@ Qed.
 
 Lemma upd_concat_perm {A B} (f : A -> list B) i t t' l b :
   nth_error l i = Some t -> f t' = b :: f t ->
-  Permutation (concat (map f (upd i t' l))) (b :: concat (map f l)).
+  Permutation (concat (map f (fi_upd i t' l))) (b :: concat (map f l)).
 Proof.
   revert i; induction l as [|y r IH]; intros [|i] E Hf; cbn in E; try discriminate.
   - injection E as ->. cbn. rewrite Hf. reflexivity.
@@ -71,7 +71,7 @@ Proof.
 Qed.
 
 Lemma upd_concat_same {A B} (f : A -> list B) i t t' l :
-  nth_error l i = Some t -> f t' = f t -> concat (map f (upd i t' l)) = concat (map f l).
+  nth_error l i = Some t -> f t' = f t -> concat (map f (fi_upd i t' l)) = concat (map f l).
 Proof.
   revert i; induction l as [|y r IH]; intros [|i] E Hf; cbn in E; try discriminate.
   - injection E as ->. cbn. rewrite Hf. reflexivity.
@@ -83,11 +83,11 @@ Fixpoint wsum {A} (w : A -> N) (l : list A) : N :=
   match l with [] => 0 | x :: r => w x + wsum w r end.
 
 Lemma wsum_upd {A} (w : A -> N) i t t' l :
-  nth_error l i = Some t -> wsum w (upd i t' l) + w t = wsum w l + w t'.
+  nth_error l i = Some t -> wsum w (fi_upd i t' l) + w t = wsum w l + w t'.
 Proof.
   revert i; induction l as [|y r IH]; intros [|i] E; cbn in E; try discriminate.
-  - injection E as ->. cbn [upd wsum]. lia.
-  - cbn [upd wsum]. specialize (IH i E). lia.
+  - injection E as ->. cbn [fi_upd wsum]. lia.
+  - cbn [fi_upd wsum]. specialize (IH i E). lia.
 Qed.
 
 Lemma wsum_le_length {A} (w : A -> N) l : (forall x, w x <= 1) -> wsum w l <= N.of_nat (length l).
@@ -96,133 +96,133 @@ Proof.
 Qed.
 
 (* ------------------------------------------------------------------ what one instruction of the generated program does *)
-Inductive tstep (c : N) (t : thread) : N -> thread -> Prop :=
+Inductive tstep (c : N) (t : fi_thread) : N -> fi_thread -> Prop :=
 | TS_idle : tstep c t c t
 | TS_new_ok rest :
-    t_todo t = CallNew :: rest -> t_pc t = 0%nat -> untagged c = true ->
-    tstep c t ((c + 1) mod W64) (mkT 0 c rest (c :: t_ids t))
+    fi_t_todo t = FiCallNew :: rest -> fi_t_pc t = 0%nat -> fi_untagged c = true ->
+    tstep c t ((c + 1) mod fi_W64) (FiT 0 c rest (c :: fi_t_ids t))
 | TS_new_tagged rest :
-    t_todo t = CallNew :: rest -> t_pc t = 0%nat -> untagged c = false ->
-    tstep c t ((c + 1) mod W64) (mkT 1 c (t_todo t) (t_ids t))
+    fi_t_todo t = FiCallNew :: rest -> fi_t_pc t = 0%nat -> fi_untagged c = false ->
+    tstep c t ((c + 1) mod fi_W64) (FiT 1 c (fi_t_todo t) (fi_t_ids t))
 | TS_new_reset rest :
-    t_todo t = CallNew :: rest -> t_pc t = 1%nat ->
-    tstep c t INITIAL (mkT 0 (t_reg t) (t_todo t) (t_ids t))
+    fi_t_todo t = FiCallNew :: rest -> fi_t_pc t = 1%nat ->
+    tstep c t fi_INITIAL (FiT 0 (fi_t_reg t) (fi_t_todo t) (fi_t_ids t))
 | TS_reset rest :
-    t_todo t = CallReset :: rest -> t_pc t = 0%nat ->
-    tstep c t INITIAL (mkT 0 (t_reg t) rest (t_ids t)).
+    fi_t_todo t = FiCallReset :: rest -> fi_t_pc t = 0%nat ->
+    tstep c t fi_INITIAL (FiT 0 (fi_t_reg t) rest (fi_t_ids t)).
 
 Lemma step_thread_cases c t c' t' :
-  step_thread fileid_programs c t = (c', t') -> tstep c t c' t'.
+  fi_step_thread fileid_programs c t = (c', t') -> tstep c t c' t'.
 Proof.
-  destruct t as [pc reg todo ids]. unfold step_thread. cbn [t_todo t_pc t_reg t_ids].
+  destruct t as [pc reg todo ids]. unfold fi_step_thread. cbn [fi_t_todo fi_t_pc fi_t_reg fi_t_ids].
   destruct todo as [|[|] rest].
   - intro E; injection E as <- <-. constructor.
-  - destruct pc as [|[|pc]]; cbn [prog_of fileid_programs p_new fileid_new_program nth_error].
-    + cbn [exec_op i_op i_k]. destruct (untagged c) eqn:U; intro E; injection E as <- <-.
-      * eapply (TS_new_ok c (mkT 0 reg (CallNew :: rest) ids) rest); auto.
-      * eapply (TS_new_tagged c (mkT 0 reg (CallNew :: rest) ids) rest); auto.
-    + cbn [exec_op i_op i_k]. intro E; injection E as <- <-.
-      eapply (TS_new_reset c (mkT 1 reg (CallNew :: rest) ids) rest); auto.
+  - destruct pc as [|[|pc]]; cbn [fi_prog_of fileid_programs fi_p_new fileid_new_program nth_error].
+    + cbn [fi_exec_op fi_op fi_k]. destruct (fi_untagged c) eqn:U; intro E; injection E as <- <-.
+      * eapply (TS_new_ok c (FiT 0 reg (FiCallNew :: rest) ids) rest); auto.
+      * eapply (TS_new_tagged c (FiT 0 reg (FiCallNew :: rest) ids) rest); auto.
+    + cbn [fi_exec_op fi_op fi_k]. intro E; injection E as <- <-.
+      eapply (TS_new_reset c (FiT 1 reg (FiCallNew :: rest) ids) rest); auto.
     + destruct pc; cbn [nth_error]; intro E; injection E as <- <-; constructor.
-  - destruct pc as [|pc]; cbn [prog_of fileid_programs p_reset fileid_reset_program nth_error].
-    + cbn [exec_op i_op i_k finish_call t_todo tl t_ids]. intro E; injection E as <- <-.
-      eapply (TS_reset c (mkT 0 reg (CallReset :: rest) ids) rest); auto.
+  - destruct pc as [|pc]; cbn [fi_prog_of fileid_programs fi_p_reset fileid_reset_program nth_error].
+    + cbn [fi_exec_op fi_op fi_k fi_finish_call fi_t_todo tl fi_t_ids]. intro E; injection E as <- <-.
+      eapply (TS_reset c (FiT 0 reg (FiCallReset :: rest) ids) rest); auto.
     + destruct pc; cbn [nth_error]; intro E; injection E as <- <-; constructor.
 Qed.
 
 Lemma step_cases s i :
-  step fileid_programs s i = s \/
-  exists t c' t', nth_error (s_threads s) i = Some t /\ tstep (s_cell s) t c' t' /\
-                  step fileid_programs s i = mkS c' (upd i t' (s_threads s)).
+  fi_step fileid_programs s i = s \/
+  exists t c' t', nth_error (fi_s_threads s) i = Some t /\ tstep (fi_s_cell s) t c' t' /\
+                  fi_step fileid_programs s i = FiS c' (fi_upd i t' (fi_s_threads s)).
 Proof.
-  unfold step. destruct (nth_error (s_threads s) i) as [t|] eqn:E; [|left; reflexivity].
-  destruct (step_thread fileid_programs (s_cell s) t) as [c' t'] eqn:St.
+  unfold fi_step. destruct (nth_error (fi_s_threads s) i) as [t|] eqn:E; [|left; reflexivity].
+  destruct (fi_step_thread fileid_programs (fi_s_cell s) t) as [c' t'] eqn:St.
   right. exists t, c', t'. repeat split; auto. apply step_thread_cases; exact St.
 Qed.
 
 (* ------------------------------------------------------------------ never reserved, never tagged *)
-Definition in_range (x : N) : Prop := INITIAL <= x /\ x < TAGN.
+Definition in_range (x : N) : Prop := fi_INITIAL <= x /\ x < fi_TAGN.
 
 (* a thread that has seen a tagged id and has not yet stored INITIAL *)
-Definition pending (t : thread) : N :=
-  match t_todo t, t_pc t with CallNew :: _, 1%nat => 1 | _, _ => 0 end.
+Definition pending (t : fi_thread) : N :=
+  match fi_t_todo t, fi_t_pc t with FiCallNew :: _, 1%nat => 1 | _, _ => 0 end.
 
 Lemma pending_le1 t : pending t <= 1.
-Proof. unfold pending. destruct (t_todo t) as [|[|] ?]; try lia. destruct (t_pc t) as [|[|?]]; lia. Qed.
+Proof. unfold pending. destruct (fi_t_todo t) as [|[|] ?]; try lia. destruct (fi_t_pc t) as [|[|?]]; lia. Qed.
 
-Record inv_range (s : state) : Prop := {
-  ir_lo : INITIAL <= s_cell s;
-  ir_hi : s_cell s <= TAGN + wsum pending (s_threads s);
-  ir_ids : Forall (fun t => Forall in_range (t_ids t)) (s_threads s) }.
+Record inv_range (s : fi_state) : Prop := {
+  ir_lo : fi_INITIAL <= fi_s_cell s;
+  ir_hi : fi_s_cell s <= fi_TAGN + wsum pending (fi_s_threads s);
+  ir_ids : Forall (fun t => Forall in_range (fi_t_ids t)) (fi_s_threads s) }.
 
 Lemma inv_range_step s i :
-  N.of_nat (length (s_threads s)) < TAGN -> inv_range s -> inv_range (step fileid_programs s i).
+  N.of_nat (length (fi_s_threads s)) < fi_TAGN -> inv_range s -> inv_range (fi_step fileid_programs s i).
 Proof.
   intros Hn [Hlo Hhi Hids].
   destruct (step_cases s i) as [->|(t & c' & t' & Ent & Hst & ->)]; [constructor; assumption|].
-  pose proof (wsum_upd pending i t t' (s_threads s) Ent) as Hw.
-  pose proof (wsum_le_length pending (s_threads s) pending_le1) as Hlen.
+  pose proof (wsum_upd pending i t t' (fi_s_threads s) Ent) as Hw.
+  pose proof (wsum_le_length pending (fi_s_threads s) pending_le1) as Hlen.
   pose proof (nth_error_Forall _ _ _ _ Hids Ent) as Hidt.
-  assert (Hc64 : s_cell s < W64) by (unfold TAGN, W64 in *; lia).
+  assert (Hc64 : fi_s_cell s < fi_W64) by (unfold fi_TAGN, fi_W64 in *; lia).
   inversion Hst as [ | rest Htodo Hpc Hu | rest Htodo Hpc Hu | rest Htodo Hpc | rest Htodo Hpc]; subst c' t'.
-  - (* idle *) constructor; cbn [s_cell s_threads]; try assumption.
-    + assert (wsum pending (upd i t (s_threads s)) = wsum pending (s_threads s)) by lia. lia.
+  - (* idle *) constructor; cbn [fi_s_cell fi_s_threads]; try assumption.
+    + assert (wsum pending (fi_upd i t (fi_s_threads s)) = wsum pending (fi_s_threads s)) by lia. lia.
     + apply upd_Forall; assumption.
   - (* new, untagged: returns the value read *)
-    assert (Hsmall : s_cell s < TAGN).
-    { destruct (N.lt_ge_cases (s_cell s) TAGN) as [L|G]; [exact L|].
+    assert (Hsmall : fi_s_cell s < fi_TAGN).
+    { destruct (N.lt_ge_cases (fi_s_cell s) fi_TAGN) as [L|G]; [exact L|].
       rewrite (untagged_big _ G Hc64) in Hu. discriminate Hu. }
     assert (Hp0 : pending t = 0) by (unfold pending; rewrite Htodo, Hpc; reflexivity).
-    assert (Hp1 : pending (mkT 0 (s_cell s) rest (s_cell s :: t_ids t)) = 0)
-      by (unfold pending; cbn [t_todo t_pc]; destruct rest as [|[|] ?]; reflexivity).
-    rewrite N.mod_small by (unfold TAGN, W64 in *; lia).
-    constructor; cbn [s_cell s_threads].
-    + unfold INITIAL in *; lia.
-    + unfold TAGN in *; lia.
-    + apply upd_Forall; [assumption|]. cbn [t_ids]. constructor; [split; assumption|assumption].
+    assert (Hp1 : pending (FiT 0 (fi_s_cell s) rest (fi_s_cell s :: fi_t_ids t)) = 0)
+      by (unfold pending; cbn [fi_t_todo fi_t_pc]; destruct rest as [|[|] ?]; reflexivity).
+    rewrite N.mod_small by (unfold fi_TAGN, fi_W64 in *; lia).
+    constructor; cbn [fi_s_cell fi_s_threads].
+    + unfold fi_INITIAL in *; lia.
+    + unfold fi_TAGN in *; lia.
+    + apply upd_Forall; [assumption|]. cbn [fi_t_ids]. constructor; [split; assumption|assumption].
   - (* new, tagged: one more pending thread *)
     assert (Hp0 : pending t = 0) by (unfold pending; rewrite Htodo, Hpc; reflexivity).
-    assert (Hp1 : pending (mkT 1 (s_cell s) (t_todo t) (t_ids t)) = 1)
-      by (unfold pending; cbn [t_todo t_pc]; rewrite Htodo; reflexivity).
-    assert (Hroom : wsum pending (s_threads s) < N.of_nat (length (s_threads s))).
+    assert (Hp1 : pending (FiT 1 (fi_s_cell s) (fi_t_todo t) (fi_t_ids t)) = 1)
+      by (unfold pending; cbn [fi_t_todo fi_t_pc]; rewrite Htodo; reflexivity).
+    assert (Hroom : wsum pending (fi_s_threads s) < N.of_nat (length (fi_s_threads s))).
     { (* t itself is not pending, so not every thread is *)
-      clear - Ent Hp0. revert i Ent. induction (s_threads s) as [|y r IH]; intros [|i] E; cbn in E; try discriminate.
+      clear - Ent Hp0. revert i Ent. induction (fi_s_threads s) as [|y r IH]; intros [|i] E; cbn in E; try discriminate.
       - injection E as ->. cbn [wsum length]. pose proof (wsum_le_length pending r pending_le1). lia.
       - cbn [wsum length]. specialize (IH i E). pose proof (pending_le1 y). lia. }
-    rewrite N.mod_small by (unfold TAGN, W64 in *; lia).
-    constructor; cbn [s_cell s_threads].
-    + unfold INITIAL in *; lia.
+    rewrite N.mod_small by (unfold fi_TAGN, fi_W64 in *; lia).
+    constructor; cbn [fi_s_cell fi_s_threads].
+    + unfold fi_INITIAL in *; lia.
     + lia.
     + apply upd_Forall; assumption.
   - (* the pending thread stores INITIAL *)
-    constructor; cbn [s_cell s_threads].
+    constructor; cbn [fi_s_cell fi_s_threads].
     + lia.
-    + unfold INITIAL, TAGN; lia.
+    + unfold fi_INITIAL, fi_TAGN; lia.
     + apply upd_Forall; assumption.
   - (* FileId::reset *)
-    constructor; cbn [s_cell s_threads].
+    constructor; cbn [fi_s_cell fi_s_threads].
     + lia.
-    + unfold INITIAL, TAGN; lia.
+    + unfold fi_INITIAL, fi_TAGN; lia.
     + apply upd_Forall; assumption.
 Qed.
 
-Lemma step_threads_length P s i : length (s_threads (step P s i)) = length (s_threads s).
+Lemma step_threads_length P s i : length (fi_s_threads (fi_step P s i)) = length (fi_s_threads s).
 Proof.
-  unfold step. destruct (nth_error (s_threads s) i); [|reflexivity].
-  destruct (step_thread P (s_cell s) t). cbn [s_threads]. apply upd_length.
+  unfold fi_step. destruct (nth_error (fi_s_threads s) i) as [t|]; [|reflexivity].
+  destruct (fi_step_thread P (fi_s_cell s) t). cbn [fi_s_threads]. apply upd_length.
 Qed.
 
 Lemma inv_range_run sched : forall s,
-  N.of_nat (length (s_threads s)) < TAGN -> inv_range s -> inv_range (run fileid_programs s sched).
+  N.of_nat (length (fi_s_threads s)) < fi_TAGN -> inv_range s -> inv_range (fi_run fileid_programs s sched).
 Proof.
   induction sched as [|i r IH]; intros s Hn Hi; [exact Hi|].
-  cbn [run fold_left]. apply IH; [rewrite step_threads_length; exact Hn|apply inv_range_step; assumption].
+  cbn [fi_run fold_left]. apply IH; [rewrite step_threads_length; exact Hn|apply inv_range_step; assumption].
 Qed.
 
-Lemma inv_range_init c0 todos : INITIAL <= c0 -> c0 <= TAGN -> inv_range (init_state c0 todos).
+Lemma inv_range_init c0 todos : fi_INITIAL <= c0 -> c0 <= fi_TAGN -> inv_range (fi_init_state c0 todos).
 Proof.
-  intros H1 H2. constructor; cbn [init_state s_cell s_threads]; [exact H1|lia|].
-  induction todos; cbn [map]; constructor; auto. cbn [t_ids]. constructor.
+  intros H1 H2. constructor; cbn [fi_init_state fi_s_cell fi_s_threads]; [exact H1|lia|].
+  induction todos; cbn [map]; constructor; auto. cbn [fi_t_ids]. constructor.
 Qed.
 
 Lemma Forall_concat_map {A B} (Q : B -> Prop) (f : A -> list B) l :
@@ -232,38 +232,38 @@ Proof. induction 1; cbn; [constructor|apply Forall_app; split; assumption]. Qed.
 (* Every id returned, under every schedule, with any mix of FileId::new and FileId::reset calls in any number
    (< 2^63) of threads, from any counter value in [3, 2^63] (so including wrap-around into the tag bit and the
    concurrent resets that follow): it lies in [3, 2^63). *)
-Theorem never_reserved : forall (todos : list (list call)) (c0 : N) (sched : list nat),
-  N.of_nat (length todos) < TAGN -> INITIAL <= c0 -> c0 <= TAGN ->
-  Forall (fun id => INITIAL <= id /\ id < TAGN) (all_ids (run fileid_programs (init_state c0 todos) sched)).
+Theorem never_reserved : forall (todos : list (list fi_call)) (c0 : N) (sched : list nat),
+  N.of_nat (length todos) < fi_TAGN -> fi_INITIAL <= c0 -> c0 <= fi_TAGN ->
+  Forall (fun id => fi_INITIAL <= id /\ id < fi_TAGN) (fi_all_ids (fi_run fileid_programs (fi_init_state c0 todos) sched)).
 Proof.
   intros todos c0 sched Hn H1 H2.
-  assert (Hi : inv_range (run fileid_programs (init_state c0 todos) sched)).
-  { apply inv_range_run; [cbn [init_state s_threads]; rewrite map_length; exact Hn|apply inv_range_init; assumption]. }
-  unfold all_ids. apply Forall_concat_map. exact (ir_ids _ Hi).
+  assert (Hi : inv_range (fi_run fileid_programs (fi_init_state c0 todos) sched)).
+  { apply inv_range_run; [cbn [fi_init_state fi_s_threads]; rewrite map_length; exact Hn|apply inv_range_init; assumption]. }
+  unfold fi_all_ids. apply Forall_concat_map. exact (ir_ids _ Hi).
 Qed.
 
 (* ------------------------------------------------------------------ uniqueness below 2^63 *)
-Record inv_uniq (s : state) : Prop := {
-  iu_pc : Forall (fun t => t_pc t = 0%nat /\ Forall (eq CallNew) (t_todo t)) (s_threads s);
-  iu_lt : Forall (fun x => x < s_cell s) (all_ids s);
-  iu_nodup : NoDup (all_ids s) }.
+Record inv_uniq (s : fi_state) : Prop := {
+  iu_pc : Forall (fun t => fi_t_pc t = 0%nat /\ Forall (eq FiCallNew) (fi_t_todo t)) (fi_s_threads s);
+  iu_lt : Forall (fun x => x < fi_s_cell s) (fi_all_ids s);
+  iu_nodup : NoDup (fi_all_ids s) }.
 
 Lemma inv_uniq_step s i :
-  s_cell s < TAGN -> inv_uniq s -> inv_uniq (step fileid_programs s i).
+  fi_s_cell s < fi_TAGN -> inv_uniq s -> inv_uniq (fi_step fileid_programs s i).
 Proof.
   intros Hc [Hpc Hlt Hnd].
   destruct (step_cases s i) as [->|(t & c' & t' & Ent & Hst & ->)]; [constructor; assumption|].
   pose proof (nth_error_Forall _ _ _ _ Hpc Ent) as [Hpct Htodot].
   inversion Hst as [ | rest Htodo Hpc' Hu | rest Htodo Hpc' Hu | rest Htodo Hpc' | rest Htodo Hpc']; subst c' t'.
-  - constructor; unfold all_ids in *; cbn [s_cell s_threads].
+  - constructor; unfold fi_all_ids in *; cbn [fi_s_cell fi_s_threads].
     + apply upd_Forall; auto.
-    + rewrite (upd_concat_same t_ids i t t _ Ent eq_refl). exact Hlt.
-    + rewrite (upd_concat_same t_ids i t t _ Ent eq_refl). exact Hnd.
-  - rewrite N.mod_small by (unfold TAGN, W64 in *; lia).
-    pose proof (upd_concat_perm t_ids i t (mkT 0 (s_cell s) rest (s_cell s :: t_ids t)) (s_threads s) (s_cell s)
+    + rewrite (upd_concat_same fi_t_ids i t t _ Ent eq_refl). exact Hlt.
+    + rewrite (upd_concat_same fi_t_ids i t t _ Ent eq_refl). exact Hnd.
+  - rewrite N.mod_small by (unfold fi_TAGN, fi_W64 in *; lia).
+    pose proof (upd_concat_perm fi_t_ids i t (FiT 0 (fi_s_cell s) rest (fi_s_cell s :: fi_t_ids t)) (fi_s_threads s) (fi_s_cell s)
                   Ent eq_refl) as Hperm.
-    constructor; unfold all_ids in *; cbn [s_cell s_threads].
-    + apply upd_Forall; [assumption|]. cbn [t_pc t_todo]. split; [reflexivity|].
+    constructor; unfold fi_all_ids in *; cbn [fi_s_cell fi_s_threads].
+    + apply upd_Forall; [assumption|]. cbn [fi_t_pc fi_t_todo]. split; [reflexivity|].
       rewrite Htodo in Htodot. inversion Htodot; assumption.
     + eapply Permutation_Forall; [apply Permutation_sym; exact Hperm|].
       constructor; [lia|]. eapply Forall_impl; [|exact Hlt]. cbn beta. intros; lia.
@@ -275,49 +275,49 @@ Proof.
 Qed.
 
 Lemma inv_uniq_run sched : forall s,
-  Forall (fun c => c < TAGN) (cells fileid_programs s sched) -> inv_uniq s ->
-  inv_uniq (run fileid_programs s sched).
+  Forall (fun c => c < fi_TAGN) (fi_cells fileid_programs s sched) -> inv_uniq s ->
+  inv_uniq (fi_run fileid_programs s sched).
 Proof.
   induction sched as [|i r IH]; intros s Hc Hi; [exact Hi|].
-  cbn [cells] in Hc. inversion Hc as [|? ? Hc0 Hrest]; subst.
-  cbn [run fold_left]. apply IH; [exact Hrest|apply inv_uniq_step; assumption].
+  cbn [fi_cells] in Hc. inversion Hc as [|? ? Hc0 Hrest]; subst.
+  cbn [fi_run fold_left]. apply IH; [exact Hrest|apply inv_uniq_step; assumption].
 Qed.
 
-Lemma inv_uniq_init c0 ks : inv_uniq (init_state c0 (map (fun k => repeat CallNew k) ks)).
+Lemma inv_uniq_init c0 ks : inv_uniq (fi_init_state c0 (map (fun k => repeat FiCallNew k) ks)).
 Proof.
-  assert (Hids : all_ids (init_state c0 (map (fun k => repeat CallNew k) ks)) = []).
-  { unfold all_ids, init_state. cbn [s_threads]. induction ks; cbn; auto. }
+  assert (Hids : fi_all_ids (fi_init_state c0 (map (fun k => repeat FiCallNew k) ks)) = []).
+  { unfold fi_all_ids, fi_init_state. cbn [fi_s_threads]. induction ks; cbn; auto. }
   constructor; rewrite ?Hids; try constructor.
-  cbn [init_state s_threads]. induction ks as [|k r IH]; cbn [map]; constructor; auto.
-  cbn [t_pc t_todo]. split; [reflexivity|]. clear. induction k; cbn; constructor; auto.
+  cbn [fi_init_state fi_s_threads]. induction ks as [|k r IH]; cbn [map]; constructor; auto.
+  cbn [fi_t_pc fi_t_todo]. split; [reflexivity|]. clear. induction k; cbn; constructor; auto.
 Qed.
 
 (* Any number of threads, any number of FileId::new calls per thread, any schedule, any initial counter value:
    if the counter stays below 2^63 during the run, the ids returned are pairwise distinct. *)
 Theorem unique : forall (calls_per_thread : list nat) (c0 : N) (sched : list nat),
-  let s0 := init_state c0 (map (fun k => repeat CallNew k) calls_per_thread) in
-  Forall (fun c => c < TAGN) (cells fileid_programs s0 sched) ->
-  NoDup (all_ids (run fileid_programs s0 sched)).
+  let s0 := fi_init_state c0 (map (fun k => repeat FiCallNew k) calls_per_thread) in
+  Forall (fun c => c < fi_TAGN) (fi_cells fileid_programs s0 sched) ->
+  NoDup (fi_all_ids (fi_run fileid_programs s0 sched)).
 Proof.
   intros ks c0 sched s0 Hc. apply iu_nodup. apply inv_uniq_run; [exact Hc|apply inv_uniq_init].
 Qed.
 
 (* ------------------------------------------------------------------ the load-then-store rewrite is refuted *)
-Lemma below_tag_b l : forallb (fun c => c <? TAGN) l = true -> Forall (fun c => c < TAGN) l.
+Lemma below_tag_b l : forallb (fun c => c <? fi_TAGN) l = true -> Forall (fun c => c < fi_TAGN) l.
 Proof.
   intro H. rewrite forallb_forall in H. rewrite Forall_forall. intros x Hx. specialize (H x Hx). lia.
 Qed.
 
-Definition load_store_program : program :=
-  [ mkI ALoad KNext; mkI (AStoreRegPlus 1) KRet ].
-Definition load_store_programs : programs := mkP load_store_program fileid_reset_program.
+Definition load_store_program : fi_program :=
+  [ FiI FiLoad FiKNext; FiI (FiStoreRegPlus 1) FiKRet ].
+Definition load_store_programs : fi_programs := FiP load_store_program fileid_reset_program.
 
 Lemma load_store_collides :
-  let s0 := init_state 3 [[CallNew]; [CallNew]] in
+  let s0 := fi_init_state 3 [[FiCallNew]; [FiCallNew]] in
   let sched := [0; 1; 0; 1]%nat in
-  Forall (fun c => c < TAGN) (cells load_store_programs s0 sched) /\
-  all_ids (run load_store_programs s0 sched) = [3; 3] /\
-  search_from 12 load_store_programs 3 [[CallNew]; [CallNew]] = Some sched.
+  Forall (fun c => c < fi_TAGN) (fi_cells load_store_programs s0 sched) /\
+  fi_all_ids (fi_run load_store_programs s0 sched) = [3; 3] /\
+  fi_search_from 12 load_store_programs 3 [[FiCallNew]; [FiCallNew]] = Some sched.
 Proof.
   cbv zeta. split; [|split]; [|vm_compute; reflexivity|vm_compute; reflexivity].
   apply below_tag_b. vm_compute. reflexivity.
